@@ -20,7 +20,7 @@ from . import codec_common as K
 from . import common as C
 
 PROP = "C03"
-PROPS_MODULES = ["AsyncFix.Props.C03"]
+PROPS_MODULES = ["AsyncFix.Props.C03", "AsyncFix.Props.C03Full"]
 ASSUMPTIONS = [
     "the connection stays connected while the reads are processed (the state test at the top of the inner loop is outside the model)",
     "a read returns a non-empty byte string (an empty read is EOF for the real task; the model proves empty chunks harmless)",
